@@ -606,6 +606,8 @@ fn decode1090_stage(out: &mut Out, rng: &mut Rng, thorough: bool) {
         "dedupf 250 8d406b902015a678d4d220aa4bdb-,20001838ca3804+ 1000:0:1 1125:1:2 1500:0:3",
         // three receptions in one group, sub-second stamps
         "dedupf 500 20001838ca3804+,5d484fdea248f5+ 1000:0:1 1125:0:2 1250:0:3 1500:1:4",
+        // one heap entry per group: a second entry pushed by the second member would close the NEXT group of the frame early
+        "dedupf 500 20001838ca3804+,5d484fdea248f5+ 1000:0:1 1125:0:2 1500:1:3 1625:0:4 1750:0:5",
     ] {
         match parse_line(line) {
             Some(h) => judge_file(out, &bin, &h),
